@@ -26,6 +26,7 @@ const (
 
 type gRef struct {
 	Alias     bool   // the reference names the target by its alias
+	PassItem  bool   // (list loops) the call also passes ITEM: '{{.ITEM}}': the callee's own loops must still see their own items
 	XC        bool   // (deferred call of a run: always task) the call passes XC: '{{.EXIT_CODE}}'
 	ForKind   string // how the loop list is given: "" literal list, "var" (space separated variable), "split" (variable split at ','), "sources" (the task's sources; task t0 only)
 	Target    int
@@ -159,6 +160,7 @@ func genRef(ch *vs.Choices, p *gProg, from, n int, b gBias, allowLoop bool) (gRe
 	}
 	r := gRef{Target: from + 1 + ch.Draw(n-from-1)}
 	r.Alias = ch.Bool(1, 5)
+	r.PassItem = ch.Bool(1, 4)
 	if b.LoopKinds {
 		r.ForKind = []string{"", "", "var", "split", "sources"}[ch.Draw(5)]
 	}
@@ -407,6 +409,9 @@ func gSanitize(p *gProg, b gBias) {
 				}
 				// loops over a once task are legal (all iterations share one execution)
 			}
+			if tr != "always" {
+				r.PassItem = false // (an extra variable would be one more dimension of a when_changed task's identity)
+			}
 			if run == "once" && r.VMode == vInherit {
 				r.VMode = vNone // a once task has no V of its own
 			}
@@ -608,6 +613,9 @@ func renderRefVars(p *gProg, from *gTask, r gRef, edge string, deferTpl bool) st
 		} else {
 			kv = append(kv, "V: '{{.ITEM}}'")
 		}
+	}
+	if r.PassItem && r.For != nil && r.Matrix == nil {
+		kv = append(kv, "ITEM: '{{.ITEM}}'")
 	}
 	if r.XC {
 		kv = append(kv, "XC: '{{.EXIT_CODE}}'")
